@@ -347,6 +347,10 @@ pub struct Presentation {
     pub attribute: String,
     /// payload type of every terminal
     pub payload: String,
+    /// overrides: "n<i>" nonterminal name, "t<i>" terminal name, "tok" terminal enum name,
+    /// "v<prod>" variant name, "f<prod>_<pos>" field name, "p<i>" payload type of terminal i,
+    /// "a<i>" attribute text of nonterminal i's declaration, "atok" of the terminal enum
+    pub names: std::collections::BTreeMap<String, String>,
 }
 
 impl Presentation {
@@ -359,6 +363,7 @@ impl Presentation {
             naming: 0,
             attribute: String::new(),
             payload: "()".into(),
+            names: Default::default(),
         }
     }
 
@@ -392,7 +397,7 @@ impl Presentation {
                 ProdStyle { named, skip_mask }
             })
             .collect();
-        Presentation { decl_order, single_as_struct, styles, layout: take(3) as u8, naming: take(2) as u8, attribute: String::new(), payload: "()".into() }
+        Presentation { decl_order, single_as_struct, styles, layout: take(3) as u8, naming: take(2) as u8, attribute: String::new(), payload: "()".into(), names: Default::default() }
     }
 }
 
@@ -427,8 +432,10 @@ pub fn terminal_name(i: usize, naming: u8) -> String {
 }
 
 pub fn render(g: &Grammar, pr: &Presentation) -> Rendered {
-    let nts: Vec<String> = (0..g.n).map(|i| nonterminal_name(i, pr.naming)).collect();
-    let ts: Vec<String> = (0..g.t).map(|i| terminal_name(i, pr.naming)).collect();
+    let ov = |key: String, default: String| -> String { pr.names.get(&key).cloned().unwrap_or(default) };
+    let nts: Vec<String> = (0..g.n).map(|i| ov(format!("n{i}"), nonterminal_name(i, pr.naming))).collect();
+    let ts: Vec<String> = (0..g.t).map(|i| ov(format!("t{i}"), terminal_name(i, pr.naming))).collect();
+    let tok = ov("tok".into(), "Tok".into());
     let mut constructors = vec![(String::new(), None); g.prods.len()];
     let mut fields = vec![vec![]; g.prods.len()];
     let sym_src = |s: &Sym| match s {
@@ -455,8 +462,9 @@ pub fn render(g: &Grammar, pr: &Presentation) -> Rendered {
                         s += &format!("{indent}    _: {}\n", sym_src(x));
                         names.push(None);
                     } else {
-                        s += &format!("{indent}    f{i}: {}\n", sym_src(x));
-                        names.push(Some(format!("f{i}")));
+                        let fname = ov(format!("f{pi}_{i}"), format!("f{i}"));
+                        s += &format!("{indent}    {fname}: {}\n", sym_src(x));
+                        names.push(Some(fname));
                     }
                 }
                 s += &format!("{indent}}}");
@@ -478,7 +486,8 @@ pub fn render(g: &Grammar, pr: &Presentation) -> Rendered {
             fields[pi] = names;
             s
         };
-        let attr = if pr.attribute.is_empty() { String::new() } else { format!("{}\n", pr.attribute) };
+        let attr_text = ov(format!("a{nt}"), pr.attribute.clone());
+        let attr = if attr_text.is_empty() { String::new() } else { format!("{}\n", attr_text) };
         if ps.len() == 1 && pr.single_as_struct[nt as usize] {
             let fs = fieldset_src(ps[0], "");
             constructors[ps[0]] = (name.clone(), None);
@@ -487,17 +496,19 @@ pub fn render(g: &Grammar, pr: &Presentation) -> Rendered {
             let mut s = format!("{attr}enum {name} {{\n");
             for (k, &pi) in ps.iter().enumerate() {
                 let fs = fieldset_src(pi, "    ");
-                constructors[pi] = (name.clone(), Some(format!("V{k}")));
-                s += &format!("    V{k}{fs}\n");
+                let vname = ov(format!("v{pi}"), format!("V{k}"));
+                s += &format!("    {vname}{fs}\n");
+                constructors[pi] = (name.clone(), Some(vname));
             }
             s += "}\n";
             decls.push(s);
         }
     }
-    let attr = if pr.attribute.is_empty() { String::new() } else { format!("{}\n", pr.attribute) };
-    let mut term = format!("{attr}terminal Tok {{\n");
-    for tname in &ts {
-        term += &format!("    ${tname}: {}\n", pr.payload);
+    let attr_text = ov("atok".into(), pr.attribute.clone());
+    let attr = if attr_text.is_empty() { String::new() } else { format!("{}\n", attr_text) };
+    let mut term = format!("{attr}terminal {tok} {{\n");
+    for (ti, tname) in ts.iter().enumerate() {
+        term += &format!("    ${tname}: {}\n", ov(format!("p{ti}"), pr.payload.clone()));
     }
     term += "}\n";
     let start = format!("start {}\n", nts[0]);
@@ -522,7 +533,7 @@ pub fn render(g: &Grammar, pr: &Presentation) -> Rendered {
             parts.extend(tail);
         }
     }
-    Rendered { source: parts.join("\n"), names: Names { nonterminals: nts, terminals: ts, terminal_enum: "Tok".into(), constructors, fields } }
+    Rendered { source: parts.join("\n"), names: Names { nonterminals: nts, terminals: ts, terminal_enum: tok, constructors, fields } }
 }
 
 /// kiki's rule order: nonterminals in declaration order, productions of each in the order written.
